@@ -17,6 +17,7 @@ import Proofs.PostProcessMapped
 import Proofs.PostProcessChecked
 import Proofs.PostProcessAtomic
 import Proofs.PostProcessRecord
+import Proofs.PostProcessGate
 import Gen.Facts
 
 namespace Props.C13
@@ -207,6 +208,23 @@ example : noDupNames [("a", "", .file "txt"), ("b", "a.txt", .file "")] [] = fal
     noDupNames [("a", "", .file "txt"), ("a2", "", .file ""), ("n", "", .scalar)] [] = true := by decide
 
 example : pad (width 12) 3 = "03" ∧ pad (width 12) 11 = "11" := by decide
+
+/-- The name derived for an entry of a typed map (or an element of an array:
+no explicit out name) is an INJECTIVE function of the key, for every element
+type and all strings — keys are run-time data, the compile-time duplicate
+check cannot see them: distinct keys of one map never share a file or directory
+under outs/.  (A naming function that is not injective on keys makes
+`moveOutFile` take its "already moved" exit for the second key.)  The harness
+calls the real `GetOutFilename` on generated run-time keys (`k`, `k.<ext>`,
+`k.`, `.<ext>`, several dots, case variants, element-like names), compares it
+with `outFilename` and checks this injectivity on the real function. -/
+theorem map_entry_names_injective (e : Ty) (k1 k2 : String)
+    (h : outFilename e k1 "" = outFilename e k2 "") : k1 = k2 := outFilename_inj e k1 k2 h
+
+example : outFilename (.file "txt") "report" "" = "report.txt" ∧
+    outFilename (.file "txt") "report.txt" "" = "report.txt.txt" ∧
+    outFilename (.file "") "report.txt" "" = "report.txt" ∧
+    outFilename (.arr (.file "txt") 0) "report.txt" "" = "report.txt" := by decide
 
 /-! ### dest_injective and content_preserved for a whole output record -/
 
@@ -443,6 +461,46 @@ theorem shape_preserved_mapped (ps : Path) (params : List (String × String × T
   exact ⟨fun xs => postArray_shape ps params top 0 xs fs, fun kvs => postMap_shape ps params top kvs fs⟩
 
 example (xs ys : List J) (R : J → J → Prop) (h : All2 R xs ys) : ys.length = xs.length := h.length_eq
+
+/-! ### the verification gate makes the legal-key filter dead code -/
+
+/-- A fork completes only when its outputs pass output verification; for typed
+maps `TypedMapType.IsValidJson` demands legal file names as keys exactly when
+the map is a directory kind (`keysVerified`, compared with the real
+`ValidateOutputs` on every input of the direct stream).  For a value that
+passed the gate, `moveOutDir`'s filter "skip keys that are not legal file
+names" drops NOTHING: at every typed-map node of directory kind, at every
+depth (through arrays of any dimension, structs, maps of maps), the rewritten
+value has ALL the (sorted, de-duplicated) keys of the input (`AllKeysKept`;
+`shape_preserved` alone only promises the LEGAL keys).  So a completed
+pipestance never loses an entry — provided the gate really checks what
+`keysVerified` says; weakening the gate breaks the correspondence and the
+monitor's "same keys" check on the real code. -/
+theorem verified_outputs_keep_all_keys (ps : Path) (ty : Ty) (id on : String) (v : J) (outs : Path) (fs : FS)
+    (hv : keysVerified ty v = true) :
+    AllKeysKept ty v (moveOut Gen.postProcessDimAware ps ty id on v outs fs).1 :=
+  allKeysKept_of_shape ty v _ hv (shape_preserved ps ty id on v outs fs)
+
+/-- non-vacuity: a map of structs with files under legal keys passes the gate; with a key `a/b`,
+`..` or the empty string it does not; a map of plain numbers may have any keys -/
+example :
+    keysVerified (.tmap (.struct [("n", "", .scalar), ("report", "", .file "txt")]))
+      (.obj [("s1", .obj [("n", .lit "1"), ("report", .str "/ps/f")]), ("report.txt", .null)]) = true ∧
+    keysVerified (.tmap (.struct [("n", "", .scalar), ("report", "", .file "txt")]))
+      (.obj [("a/b", .obj [("n", .lit "1"), ("report", .str "/ps/f")])]) = false ∧
+    keysVerified (.tmap (.arr (.file "") 0)) (.obj [("..", .arr [])]) = false ∧
+    keysVerified (.arr (.tmap (.file "bam")) 1) (.arr [.arr [.obj [("", .null)]]]) = false ∧
+    keysVerified (.tmap .scalar) (.obj [("a/b", .lit "1"), ("", .lit "2")]) = true := by decide
+
+/-- Negative witness (why the gate matters): an UNVERIFIED value — `map<STRUCT>` with the keys
+`a/b` and `ok` — loses the entry `a/b` in the rewritten value, whatever the file system: its
+non-file member `n` is gone from the record and its file is never looked at. -/
+theorem unverified_key_is_dropped (fs : FS) :
+    (match (moveOut true ["ps"] (.tmap (.struct [("n", "", .scalar), ("report", "", .file "txt")])) "m" ""
+        (.obj [("a/b", .obj [("n", .lit "1"), ("report", .null)]), ("ok", .obj [("n", .lit "2"), ("report", .null)])])
+        ["ps", "outs"] fs).1 with
+     | .obj kvs => kvs.map Prod.fst
+     | _ => []) = ["ok"] := by rfl
 
 /-! ### mapped top-level calls: from the fork key to its directory under outs/ -/
 
